@@ -14,10 +14,44 @@ use crate::ops::*;
 use crate::stats::*;
 use crate::tok::{self, m, Cb, Injected, St, Tok, *};
 
+thread_local! {
+    /// fault kind F8: (the write at which the formatter sink fails, writes so far, fired)
+    static SINK_FAIL: std::cell::Cell<(usize, usize, bool)> = std::cell::Cell::new((0, 0, false));
+}
+/// Arm (k > 0) or disarm (k = 0) the failing sink for the next observe operation.
+pub fn set_sink_fail(k: u32) {
+    SINK_FAIL.with(|c| c.set((k as usize, 0, false)));
+}
+/// Whether the armed sink failure happened; disarms.
+pub fn take_sink_fired() -> bool {
+    SINK_FAIL.with(|c| {
+        let f = c.get().2;
+        c.set((0, 0, false));
+        f
+    })
+}
+
+/// The sink every `Debug` / `Display` observation writes into. Normally it swallows everything;
+/// with fault kind F8 armed its k-th write returns `Err`, which drives the `?` early-return paths
+/// of the formatting code under test.
 pub struct NullWriter(pub usize);
 impl fmt::Write for NullWriter {
     fn write_str(&mut self, s: &str) -> fmt::Result {
         self.0 += s.len();
+        let fail = SINK_FAIL.with(|c| {
+            let (at, n, fired) = c.get();
+            if at == 0 {
+                return false;
+            }
+            let n = n + 1;
+            let hit = n == at;
+            c.set((at, n, fired || hit));
+            hit
+        });
+        if fail {
+            tok::note(EV_INJECT, 8000);
+            return Err(fmt::Error);
+        }
         Ok(())
     }
 }
@@ -944,6 +978,10 @@ impl<'s, K: Kind<X>, X: Item> VecExec<'s, K, X> {
                     self.st.fault_cfg[F_OBSERVE_PANIC] += 1;
                 }
                 let kind = op.a % 4;
+                if op.b > 0 && (kind == 0 || kind == 3) {
+                    self.st.fault_cfg[F_SINK] += 1;
+                    set_sink_fail(op.b);
+                }
                 let (r, fired) = guard(0, m(OWN_MAIN), plan_of(Cb::Observe, op.f), || match kind {
                     0 => {
                         K::v_observe_debug(v);
@@ -961,6 +999,9 @@ impl<'s, K: Kind<X>, X: Item> VecExec<'s, K, X> {
                 if fired {
                     self.st.fault_fired[F_OBSERVE_PANIC] += 1;
                     self.st.probes[P_OBS_PANIC_FIRED] += 1;
+                }
+                if take_sink_fired() {
+                    self.st.fault_fired[F_SINK] += 1;
                 }
                 match r {
                     Ok(()) => {}
@@ -1279,6 +1320,10 @@ impl<'s, K: Kind<X>, X: Item> VecExec<'s, K, X> {
                     }
                 }
                 let twin = self.twin.as_ref().map(|t| &t.0);
+                if op.b > 0 && kind == 0 {
+                    self.st.fault_cfg[F_SINK] += 1;
+                    set_sink_fail(op.b);
+                }
                 let touch = m(OWN_MAIN) | if kind >= 3 { m(OWN_TWIN) } else { 0 };
                 let (r, fired) = guard(0, touch, plan_of(Cb::Observe, op.f), || match kind {
                     0 => {
@@ -1304,6 +1349,10 @@ impl<'s, K: Kind<X>, X: Item> VecExec<'s, K, X> {
                 if fired {
                     self.st.fault_fired[F_OBSERVE_PANIC] += 1;
                     self.st.probes[P_OBS_PANIC_FIRED] += 1;
+                    self.after_obs_panic = true;
+                }
+                if take_sink_fired() {
+                    self.st.fault_fired[F_SINK] += 1;
                     self.after_obs_panic = true;
                 }
                 match r {
